@@ -57,6 +57,11 @@ class Prop:
     def extra_coverage(self, tier, cases, recs):
         return {}
 
+    def corruptions(self, recs):
+        """Non-vacuity of the trace specification: [(corrupted copy of a recorded record, clause that
+        must now be reported as failing)].  Used by the self-test after every run."""
+        return []
+
 
 def run_mc(prop, tier):
     out = []
@@ -101,6 +106,43 @@ def run_check(prop, tier, replay=None):
         recs = prop.records(cases, results)
         mod, cfg = prop.trace
         fails, tstats = core.judge(mod, cfg, recs, timeout=prop.judge_timeout, group_key=prop.group_key)
+    except Machinery as ex:
+        print("MACHINERY-FAILURE property=%s %s" % (pid, ex))
+        core.cleanup_tmproot()
+        return 2
+    # self-test of the binding: corrupt recorded fields, TLC must reject exactly those clauses
+    selftest = {"mutations": 0, "rejected": 0}
+    try:
+        import copy
+        muts = prop.corruptions(copy.deepcopy(recs))
+        if muts:
+            mrecs, targets = [], []
+            for k, mu in enumerate(muts):
+                if mu[0] == "pair":          # (context record, corrupted record) of one group / history
+                    _, ctx, mr, clause = mu
+                    ctx["id"] = 10 ** 8 + 2 * k
+                    ctx["clauses"] = []
+                    mr["id"] = 10 ** 8 + 2 * k + 1
+                    mr["clauses"] = [clause]
+                    if prop.group_key:
+                        ctx[prop.group_key] = mr[prop.group_key] = "selftest-%d" % k
+                    mrecs += [ctx, mr]
+                else:
+                    mr, clause = mu
+                    mr["id"] = 10 ** 8 + 2 * k + 1
+                    mr["clauses"] = [clause]
+                    if prop.group_key:
+                        mr[prop.group_key] = "none"
+                    mrecs.append(mr)
+                targets.append(mr)
+            mfails, _ = core.judge(mod, cfg, mrecs, timeout=prop.judge_timeout, group_key=prop.group_key)
+            got = {(i, c) for i, c, _ in mfails}
+            selftest["mutations"] = len(targets)
+            selftest["rejected"] = sum(1 for r in targets if (r["id"], r["clauses"][0]) in got)
+            if selftest["rejected"] != selftest["mutations"]:
+                missing = [(r["clauses"][0]) for r in targets if (r["id"], r["clauses"][0]) not in got]
+                raise Machinery("trace specification accepted %d corrupted record(s): clauses %s" % (
+                    len(missing), sorted(set(missing))))
     except Machinery as ex:
         print("MACHINERY-FAILURE property=%s %s" % (pid, ex))
         core.cleanup_tmproot()
@@ -178,6 +220,7 @@ def run_check(prop, tier, replay=None):
                              "failed_clauses_total": len(fails),
                              "failed_clauses_of_this_property": len([f for f in fails if f[1].startswith(pid + ".")])},
         "known_findings_matched": sorted(hit_known),
+        "trace_spec_self_test": selftest,
         "impl_model_binding": {"records_compared": sum(1 for r in recs if any(c.startswith("M") for c in r.get("clauses", []))),
                                "disagreements": len(mf)},
         "exhaustive": False,
